@@ -286,6 +286,14 @@ func C09(c *core.Ctx) error {
 		pkgs[P("b")] = core.M{"config": nil, "interfaces": core.M{"IB": core.M{"config": nil, "configs": nil}}}
 		pkgs[P("c")] = core.M{"config": core.M{"template-data": nil, "replace-type": nil, "exclude-subpkg-regex": nil}, "interfaces": core.M{"IC": core.M{"config": core.M{"template-data": nil}}}}
 	})
+	// one template-data key with different shapes at different levels (valid: the more specific level wins)
+	add("template-data key: map at interface level over a scalar at top level, scalar in a configs entry over a map at package level", false, func(root core.M, pcs, ics []core.M, files map[string]string, s *c09scn) {
+		root["template-data"] = core.M{"ok": "scalar at the top"}
+		ics[0]["config"].(core.M)["template-data"] = core.M{"ok": core.M{"nested": "map at interface level"}}
+		pcs[1]["template-data"] = core.M{"ok": core.M{"nested": core.M{"deep": 1}}}
+		ics[1]["configs"] = []any{core.M{"template-data": core.M{"ok": "scalar in a configs entry"}}, core.M{"template-data": core.M{"ok": []any{"list", 2}}}}
+		s.expect = []string{P("a") + "|IA2|MockIA2", P("a") + "|IA|MockIA", P("b") + "|IB|MockIB", P("b") + "|IB|MockIB", P("c") + "|IC|MockIC"}
+	})
 	add("build-tagged file without build-tags (tag off)", false, func(root core.M, pcs, ics []core.M, files map[string]string, s *c09scn) {
 		files["a/tagged.go"] = "//go:build special\n\npackage a\n\ntype Tagged interface{ T() }\n"
 	})
